@@ -126,6 +126,7 @@ type Sim struct {
 	schedHash uint64
 	Probes    map[string]int
 	selSeed   uint64
+	knobSeed  uint64
 	T         *testing.T
 
 	guardOn    bool
@@ -473,6 +474,27 @@ func (s *Sim) ProbeN(name string, n int) {
 	s.mu.Unlock()
 }
 
+// Knob is what simgen puts in place of a large literal queue capacity: the shipped value in half of the runs, 1..4 in the others
+// (decided by the run's seed and the site, so it is the same on replay and while a schedule is minimised).  Outside a
+// simulation it is the shipped value.
+func Knob(site string, shipped int) int {
+	s := active.Load()
+	if s == nil {
+		return shipped
+	}
+	h := s.knobSeed
+	for i := 0; i < len(site); i++ {
+		h = (h ^ uint64(site[i])) * 1099511628211
+	}
+	h = Mix(h, 0x6b6e6f62)
+	if h&1 == 0 {
+		return shipped
+	}
+	v := 1 + int((h>>8)%4)
+	s.Probe("knob.small:" + site)
+	return v
+}
+
 // Probe is the package-level form, usable from simulated devices.
 func Probe(name string) {
 	if s := active.Load(); s != nil {
@@ -779,7 +801,7 @@ func RunBubble(t *testing.T, cfg Config, sched *Choices, mapSeed uint64, driver 
 		}()
 		synctest.Test(t, func(t *testing.T) {
 			s = &Sim{byGoid: map[uint64]*Task{}, kick: make(chan struct{}, 1), lockc: NewCond(), Cfg: cfg, Sched: sched,
-				frozen: map[string]bool{}, deadGroups: map[string]bool{}, Probes: map[string]int{}, start: time.Now(), selSeed: mapSeed ^ 0x5851F42D4C957F2D, T: t}
+				frozen: map[string]bool{}, deadGroups: map[string]bool{}, Probes: map[string]int{}, start: time.Now(), selSeed: mapSeed ^ 0x5851F42D4C957F2D, knobSeed: mapSeed, T: t}
 			runtime.VerifSetMapSeed(mapSeed | 1)
 			runtime.VerifSetSelectSeed(s.selSeed | 1)
 			active.Store(s)
